@@ -352,6 +352,65 @@ def r3_3(ctx):
                    'literals below it are never indexed and forward/backward code is not marked' % k)
 
 
+def r3_4(ctx):
+    """every walk over a fiber's repeat-counter stack covers exactly the live entries"""
+    prog = ctx.prog
+    push_pre = push_post = 0
+    init = None
+    loops = []
+    for f in prog.fns():
+        if f.file != 'libyara/re.c' and not ctx.fixture:
+            continue
+        for n in f.all_nodes():
+            if n['k'] == 'sub':
+                b = cu.strip_casts(f, f.kid(n, 0))
+                i = cu.strip_casts(f, f.kid(n, 1))
+                if b is not None and b['k'] == 'member' and b['fld'] == 'stack' and i is not None and i['k'] == 'un':
+                    t = cu.strip_casts(f, f.kid(i, 0))
+                    if t is not None and t['k'] == 'member' and t['fld'] == 'sp':
+                        if i['op'] == '++':
+                            push_pre += 1
+                        elif i['op'] == 'post++':
+                            push_post += 1
+            if n['k'] == 'bin' and n['op'] == '=':
+                l = cu.strip_casts(f, f.kid(n, 0))
+                if l is not None and l['k'] == 'member' and l['fld'] == 'sp' and l.get('rec') == 'RE_FIBER':
+                    v = cu.const_of(cu.strip_casts(f, f.kid(n, 1)))
+                    if v is not None:
+                        init = v
+            if n['k'] == 'for':
+                c = cu.strip_casts(f, f.kid(n, 1))
+                if c is not None and c['k'] == 'bin' and c['op'] in ('<', '<=') :
+                    r = cu.strip_casts(f, f.kid(c, 1))
+                    if r is not None and r['k'] == 'member' and r['fld'] == 'sp':
+                        ivar = canon(f, f.kid(c, 0))
+                        uses = [x for x in f.walk(n) if x['k'] == 'sub' and canon(f, f.kid(x, 1)) == ivar and
+                                canon(f, f.kid(x, 0)).endswith('->stack')]
+                        if uses:
+                            loops.append((f, n, c))
+    ctx.require((push_pre + push_post > 0 and init is not None) or ctx.fixture,
+                'fiber stack discipline (initial sp, push form) not recognised')
+    # sp = -1 and stack[++sp]: sp is the index of the top entry -> inclusive bound
+    inclusive = push_pre > 0 and init == -1
+    exclusive = push_post > 0 and init == 0
+    ctx.ob('R3.4', 'stack:discipline', inclusive != exclusive, 'libyara/re.c',
+           'sp starts at %s and pushes are stack[%s]: sp is %s' % (
+               init, '++sp' if push_pre else 'sp++',
+               'the index of the top entry' if inclusive else 'the number of entries')
+           if inclusive != exclusive else
+           'mixed stack discipline: initial sp %s, %d pre-increment and %d post-increment pushes' % (
+               init, push_pre, push_post))
+    want = '<=' if inclusive else '<'
+    for k, (f, n, c) in enumerate(loops):
+        ctx.ob('R3.4', '%s:stack-walk%d:covers-live-entries' % (f.name, k), c['op'] == want, f.loc(c),
+               'walks entries 0..sp with `%s`' % c['op'] if c['op'] == want else
+               '%s walks the counter stack with `i %s sp` although sp is %s: the %s' % (
+                   f.name, c['op'], 'the index of the top entry' if inclusive else 'the entry count',
+                   'top entry (the innermost repeat counter) is left out' if inclusive else
+                   'walk reads one entry past the top'))
+    ctx.count('fiber_stack_walks', len(loops))
+
+
 FIXTURES = {
     'R3.1': {'src': 'C03/bytecode.c', 'run': r3_1, 'expect': 'yr_re_exec:RE_OPCODE_MASKED_LITERAL:advance',
              'expect_ok': 'yr_re_exec:RE_OPCODE_LITERAL:advance'},
@@ -369,3 +428,5 @@ def run(ctx):
     ctx.floor('R3.2', 25)
     r3_3(ctx)
     ctx.floor('R3.3', 22)
+    r3_4(ctx)
+    ctx.floor('R3.4', 3)
